@@ -203,6 +203,85 @@ theorem inv_step (l : Label) (s s' : St) (h : Inv s) (ha : s.always = true) (hs 
               omega
           · simp at hs
     · simp at hs
+  | sDrop i k =>
+    simp only [step] at hs
+    split at hs
+    · rename_i hc
+      obtain ⟨hi, hpc⟩ := hc
+      split at hs
+      · rename_i hin
+        simp only [Option.some.injEq] at hs; subst hs
+        refine inv_sender_local s _ i h hi rfl rfl (fun j _ hji => by simp [upd_other _ _ hji]) rfl hoc (Nat.le_refl _)
+          (fun _ => by simp) ⟨?_, ?_⟩ ⟨fun x => x, ?_⟩
+        · rintro ⟨_, hp, _⟩; simp at hp
+        · left; simp [hpc, hin, holder]
+        · intro _; simp [hpc, pusher]
+      · rename_i hnin
+        have hnin' : s.inset i = false := by cases hb : s.inset i <;> simp_all
+        split at hs
+        · -- nobody is in the wait set: nobody sleeps
+          rename_i hempty
+          simp only [Option.some.injEq] at hs; subst hs
+          have hH := holders_upd1 s { s with spc := upd s.spc i .idle } i hi rfl
+            (fun j _ hji => by simp [upd_other _ _ hji])
+          have hP := pushers_upd1 s { s with spc := upd s.spc i .idle } i hi rfl
+            (fun j _ hji => by simp [upd_other _ _ hji])
+          refine ⟨hoc, hml, ?_, ?_, ?_⟩
+          · intro j hj hp
+            by_cases hji : j = i
+            · subst hji; exact hnin'
+            · simp only [upd_other _ _ hji] at hp; exact h.notInset j hj hp
+          · rintro ⟨j, hj, _, hb⟩
+            have := hempty j hj
+            simp_all
+          · rintro ⟨hp, hreg⟩
+            have := h.receiver ⟨hp, hreg⟩
+            simp [hpc, pusher] at hP
+            show s.msgs ≤ pushers _
+            omega
+        · split at hs
+          · rename_i hk
+            obtain ⟨hk, hkin⟩ := hk
+            simp only [Option.some.injEq] at hs; subst hs
+            have hik : i ≠ k := by intro e; subst e; rw [hnin'] at hkin; cases hkin
+            have hH := holders_upd2 s { s with inset := upd s.inset k false, spc := upd s.spc i .idle } i k hi hk hik rfl
+              (fun j _ hji hjk => by simp [upd_other _ _ hji, upd_other _ _ hjk])
+            have hP := pushers_upd1 s { s with inset := upd s.inset k false, spc := upd s.spc i .idle } i hi rfl
+              (fun j _ hji => by simp [upd_other _ _ hji])
+            -- the notifier that is popped belongs to a sender that will look again
+            have hkpc : s.spc k = .rm ∨ s.spc k = .try2 ∨ s.spc k = .cancel ∨ s.spc k = .pending := by
+              have := h.notInset k hk
+              cases hp : s.spc k <;> simp_all
+            refine ⟨hoc, hml, ?_, ?_, ?_⟩
+            · intro j hj hp
+              by_cases hji : j = i
+              · subst hji; simp only [upd_other _ _ hik]; exact hnin'
+              · simp only [upd_other _ _ hji] at hp
+                by_cases hjk : j = k
+                · subst hjk; simp
+                · simp only [upd_other _ _ hjk]; exact h.notInset j hj hp
+            · rintro ⟨j, hj, hp, hb⟩
+              have hjk : j ≠ k := by intro e; subst e; simp at hb
+              have hji : j ≠ i := by intro e; subst e; simp at hp
+              simp only [upd_other _ _ hji] at hp
+              simp only [upd_other _ _ hjk] at hb
+              have := h.senders ⟨j, hj, hp, hb⟩
+              have e1 : holder (s.spc i) (s.inset i) = 1 := by simp [hpc, hnin', holder]
+              have e2 : holder (s.spc k) (s.inset k) = 0 := by simp [hkin, holder]
+              have e3 : holder (upd s.spc i SPc.idle i) (upd s.inset k false i) = 0 := by simp [holder]
+              have e4 : holder (upd s.spc i SPc.idle k) (upd s.inset k false k) = 1 := by
+                simp only [upd_other _ _ (Ne.symm hik), upd_same]
+                rcases hkpc with e | e | e | e <;> simp [e, holder]
+              simp only [e1, e2, e3, e4] at hH
+              show s.cap ≤ s.occ + rtoken s + holders _
+              omega
+            · rintro ⟨hp, hreg⟩
+              have := h.receiver ⟨hp, hreg⟩
+              simp [hpc, pusher] at hP
+              show s.msgs ≤ pushers _
+              omega
+          · simp at hs
+    · simp at hs
   | sNotify i =>
     simp only [step] at hs
     split at hs
